@@ -176,9 +176,12 @@ def main(argv=None):
             else:
                 undecided.append(o["id"])
     # obligations that were discharged at baseline but were not even generated now
-    present = set(o["id"] for o in all_obl)
+    # (ids are compared modulo the "#n" suffix that numbers several obligations of the same label: how many call
+    # sites / exception paths a unit has may change with harmless edits)
+    strip = lambda s_: re.sub(r"#\d+$", "", s_)
+    present = set(strip(o["id"]) for o in all_obl)
     if not a.only:
-        for bid in sorted(baseline - present):
+        for bid in sorted(set(strip(b_) for b_ in baseline) - present):
             kind = bid.split("/")[2] if bid.count("/") >= 3 else ""
             if kind in ("post", "lemma", "frame", "inv.init", "inv.keep", "pre@site", "eff"):
                 undecided.append(bid + " (not generated: contract no longer binds?)")
